@@ -155,6 +155,7 @@ Scalar MASA::sod_1d<Scalar>::eval_q_rho(Scalar x,Scalar t)
 
   Scalar pm;
   Scalar rhoml, vs, vt, rhomr, vm, density;
+  const Scalar mu = (Gamma - 1.e0) / (Gamma + 1.e0); // of the current Gamma (the registered "mu" only holds the default)
 
   // Define the Sod problem initial conditions for the left and right states.
 
@@ -227,6 +228,7 @@ Scalar MASA::sod_1d<Scalar>::eval_q_rho_u(Scalar x,Scalar t)
 
   Scalar pm;
   Scalar rhoml, vs, vt, rhomr, vm, density, velocity;
+  const Scalar mu = (Gamma - 1.e0) / (Gamma + 1.e0); // of the current Gamma (the registered "mu" only holds the default)
 
   // Define the Sod problem initial conditions for the left and right states.
 
@@ -375,6 +377,7 @@ Scalar MASA::sod_1d<Scalar>::func(Scalar pm)
 ///////////////////////////////////////////////////////////////////////
  
   Scalar myval;
+  const Scalar mu = (Gamma - 1.e0) / (Gamma + 1.e0); // of the current Gamma (the registered "mu" only holds the default)
  
   myval = -2*cl*(1 - pow((pm/pl),((-1 + Gamma)/(2*Gamma))))/
     (cr*(-1 + Gamma)) +
